@@ -166,6 +166,7 @@ def run(ctx):
     order = [n for n in walk_no_nested(fn) if isinstance(n, ast.Assign) and "self.pop_value" in norm(n.value)]
     ctx.ob("C22.R4", W + ":WasmToIrCompiler.gen_binop", "operands are popped right operand first (b, then a)", [norm(n.targets[0]) for n in order] == ["b", "a"], construct="pop-order")
     _conditions(ctx)
+    _br_table(ctx)
 
 
 def _conditions(ctx):
@@ -235,3 +236,99 @@ def _conditions(ctx):
         hits += [(rel, d) for d in neg_tables(ctx.project.module(rel).tree)]
     ctx.ob("C22.R6", "ppci/wasm/*", "no table of complemented comparisons is used to fold a negation into a comparison (float comparisons with NaN are not complementary)", not hits, construct="no-complement-table",
            node=hits[0][1] if hits else None, detail="; ".join("%s:%d" % (r, d.lineno) for r, d in hits))
+
+
+MUTATORS = {"pop", "append", "extend", "insert", "remove", "clear", "sort", "reverse", "update", "setdefault", "popitem", "add", "discard"}
+# parameters that are not part of the wasm module being translated
+NOT_MODULE_DATA = {("WasmToIrCompiler.generate_function", "ppci_function"): "the IR function under construction"}
+
+
+def _br_table(ctx):
+    """R7: br_table is a compare chain over the label table; the translator reads the module, it never edits it."""
+    from ..core import last_name
+    from .. import sym
+    ctx.rule("C22.R7", "br_table: entry i of the complete label table is taken when the operand equals i, in table order, the last label is the default; translating a module does not modify it (a module is instantiated for both targets)", floor=5)
+    q = "WasmToIrCompiler.gen_br_table_instruction"
+    fn = ctx.fn(W, q)
+    site = W + ":" + q
+    loops = [l for l in walk_no_nested(fn) if isinstance(l, ast.For) and isinstance(l.iter, ast.Call) and norm(l.iter.func) == "enumerate"]
+    ctx.need(len(loops) == 1 and isinstance(loops[0].target, ast.Tuple) and len(loops[0].target.elts) == 2, "gen_br_table_instruction: enumerate loop over the label table not found")
+    loop = loops[0]
+    idx, lab = (norm(e) for e in loop.target.elts)
+    ctx.ob("C22.R7", site, "entries are numbered from 0 (enumerate without a start value)", len(loop.iter.args) == 1 and not loop.iter.keywords, construct="numbered-from-zero")
+    tab = loop.iter.args[0]
+    ok_tab = isinstance(tab, ast.Name)
+    assigns = [n for n in walk_no_nested(fn) if isinstance(n, ast.Assign) and ok_tab and any(isinstance(t, ast.Name) and t.id == tab.id for t in n.targets)]
+    def table_expr(e):
+        """kinds of expressions that denote the label table (possibly less its last element), in table order"""
+        t = norm(e)
+        if t == "instruction.args[0]":
+            return "table"
+        if isinstance(e, ast.Call) and norm(e.func) in ("list", "tuple") and len(e.args) == 1 and table_expr(e.args[0]) == "table":
+            return "table"
+        if isinstance(e, ast.Subscript) and isinstance(e.slice, ast.Slice) and e.slice.lower is None and e.slice.step is None and e.slice.upper is not None and norm(e.slice.upper) == "-1":
+            inner = e.value
+            if (ok_tab and isinstance(inner, ast.Name) and inner.id == tab.id) or table_expr(inner) == "table":
+                return "table-less-last"
+        return None
+    kinds = [table_expr(n.value) for n in assigns]
+    pops = [c for c in ast.walk(fn) if isinstance(c, ast.Call) and isinstance(c.func, ast.Attribute) and c.func.attr == "pop" and ok_tab and norm(c.func.value) == tab.id]
+    pops_last = [c for c in pops if len(c.args) == 1 and norm(c.args[0]) == "-1" or not c.args]
+    removed = len(pops_last) + kinds.count("table-less-last")
+    ok = ok_tab and bool(assigns) and all(kinds) and len(pops) == len(pops_last) and removed == 1
+    ctx.ob("C22.R7", site, "the chain runs over the complete label table less its last entry, in table order (not filtered, de-duplicated, sorted or reversed: the compared index is the position in the table)", ok, construct="chain-over-whole-table",
+           detail="; ".join(" ".join(norm(n).split())[:90] for n in assigns) + "; removals of the last entry: %d" % removed)
+    cons = [c for c in ast.walk(loop) if isinstance(c, ast.Call) and norm(c.func) == "ir.Const"]
+    cj = [c for c in ast.walk(loop) if isinstance(c, ast.Call) and norm(c.func) == "ir.CJump"]
+    fenv = sym.single_assign_env(fn)
+    env = dict(fenv)
+    env.update(sym.single_assign_env(loop))
+    ok = len(cons) == 1 and len(cj) == 1 and norm(cons[0].args[0]) == idx and len(cj[0].args) == 5
+    if ok:
+        a, op, b, yes, no = cj[0].args
+        ok = try_const(op) == "==" and norm(sym.deep_inline(a, env)) == "self.pop_value()" and "ir.Const(%s," % idx in norm(sym.deep_inline(b, env))
+        yes_t = norm(sym.deep_inline(yes, env))
+        ok = ok and "get_jump_target_block(%s)" % lab in yes_t
+        ok = ok and any(isinstance(c, ast.Call) and last_name(c) == "set_block" and norm(c.args[0]) == norm(no) for c in ast.walk(loop)) and "new_block" in norm(sym.deep_inline(no, env))
+        ok = ok and not any(isinstance(x, (ast.If, ast.Continue, ast.Break)) for x in ast.walk(loop))
+    ctx.ob("C22.R7", site, "every entry tests `operand == index` (index typed like the operand), jumps to that entry's label when equal and continues the chain in a fresh block otherwise", ok, construct="compare-chain", detail=norm(cj[0])[:90] if cj else "")
+    after = [st for st in fn.body if st.lineno > loop.lineno]
+    jm = [c for st in after for c in ast.walk(st) if isinstance(c, ast.Call) and norm(c.func) == "ir.Jump"]
+    dflt = [n for n in walk_no_nested(fn) if isinstance(n, ast.Assign) and isinstance(n.value, (ast.Call, ast.Subscript)) and (n.value in pops_last or (isinstance(n.value, ast.Subscript) and norm(n.value.slice) == "-1" and table_expr(n.value.value) == "table" or (isinstance(n.value, ast.Subscript) and norm(n.value.slice) == "-1" and ok_tab and norm(n.value.value) == tab.id)))]
+    ok = len(jm) == 1 and len(dflt) == 1
+    if ok:
+        envd = dict(fenv)
+        envd.update(sym.single_assign_env(ast.Module(body=after, type_ignores=[])))
+        d = norm(dflt[0].targets[0])
+        t = norm(sym.deep_inline(jm[0].args[0], envd))
+        ok = "get_jump_target_block(" in t and (d in t or norm(dflt[0].value) in t or norm(sym.deep_inline(dflt[0].value, envd)) in t)
+    ctx.ob("C22.R7", site, "an operand that matches no entry (>= table length) jumps to the label stored last in the table", ok, construct="default-is-last", detail=norm(jm[0])[:80] if jm else "")
+    # the translator does not edit the module
+    mod = ctx.project.module(W)
+    n_methods = 0
+    bad = []
+    for qq, f in mod.defs.items():
+        if not qq.startswith("WasmToIrCompiler.") or not isinstance(f, ast.FunctionDef):
+            continue
+        n_methods += 1
+        params = {a.arg for a in f.args.args + f.args.kwonlyargs} - {"self"}
+        if not params:
+            continue
+        fenv = sym.single_assign_env(f)
+        for n in ast.walk(f):
+            recvs = []
+            if isinstance(n, ast.Call) and isinstance(n.func, ast.Attribute) and n.func.attr in MUTATORS:
+                recvs.append(n.func.value)
+            elif isinstance(n, (ast.Assign, ast.AugAssign, ast.Delete)):
+                ts = n.targets if not isinstance(n, ast.AugAssign) else [n.target]
+                recvs += [t.value for t in ts if isinstance(t, (ast.Subscript, ast.Attribute))]
+            for r in recvs:
+                full = sym.deep_inline(r, fenv)
+                root = full
+                while isinstance(root, (ast.Attribute, ast.Subscript)):
+                    root = root.value
+                if isinstance(root, ast.Name) and root.id in params and (qq, root.id) not in NOT_MODULE_DATA:
+                    bad.append((qq, n, "%s (is %s)" % (norm(r), norm(full))))
+    ctx.need(n_methods >= 40, "WasmToIrCompiler: only %d methods scanned" % n_methods)
+    ctx.ob("C22.R7", W + ":WasmToIrCompiler", "no method modifies, in place, data reached from its parameters (instructions, their argument lists, components of the module): the same Module object is translated again for the other target and written out again",
+           not bad, construct="module-not-mutated", node=bad[0][1] if bad else None, detail="; ".join("%s line %d: %s" % (a, b.lineno, c) for a, b, c in bad[:4]))
